@@ -42,31 +42,33 @@ type uciSim struct {
 	out    <-chan string
 	start  time.Time
 
-	inClosed    bool
-	outClosed   bool
-	loop        loopState
-	clockEvents int    // clock advances so far (they are events, but not progress of the system)
-	loopInCmd   bool   // the loop is between loop.recv (released) and the next loop.idle: it may hold Engine.mu
-	mtInFlight  string // name of a movetime-timer task between its two hooks (it takes Engine.mu)
-	lines       []outLine
-	stall       int
-	deadlines   []time.Duration // known timer instants (relative to start), for choosing clock advances
-	steps       int
-	maxSteps    int
-	budgetHit   bool
-	quiet       int // consecutive steps without any observable change (deadlock detection)
-	lastCmd     string
-	frugal      bool // the running search cannot end by itself: do not burn evaluations on it
-	onRelease   func(tk *Task)
-	drainedAt   int            // last step at which the output was read until empty
-	drainBase   int            // drainedAt as it was when the sync in progress began
-	loopMark    int            // work counter when the command loop was last seen at a park point or in its select
-	roleW       map[string]int // scheduling bias of this run: a starved role is picked rarely ("slow task" fault)
-	delivered   []string
+	inClosed            bool
+	outClosed           bool
+	loop                loopState
+	iterSent            map[string]bool // search tasks seen parked after reporting an iteration
+	afterDeadlineRounds int             // settle: rounds started after the last known timer instant had passed
+	clockEvents         int             // clock advances so far (they are events, but not progress of the system)
+	loopInCmd           bool            // the loop is between loop.recv (released) and the next loop.idle: it may hold Engine.mu
+	mtInFlight          string          // name of a movetime-timer task between its two hooks (it takes Engine.mu)
+	lines               []outLine
+	stall               int
+	deadlines           []time.Duration // known timer instants (relative to start), for choosing clock advances
+	steps               int
+	maxSteps            int
+	budgetHit           bool
+	quiet               int // consecutive steps without any observable change (deadlock detection)
+	lastCmd             string
+	frugal              bool // the running search cannot end by itself: do not burn evaluations on it
+	onRelease           func(tk *Task)
+	drainedAt           int            // last step at which the output was read until empty
+	drainBase           int            // drainedAt as it was when the sync in progress began
+	loopMark            int            // work counter when the command loop was last seen at a park point or in its select
+	roleW               map[string]int // scheduling bias of this run: a starved role is picked rarely ("slow task" fault)
+	delivered           []string
 }
 
 func newUCISim(k *Kernel, t *tape.Tape, res *core.RunResult, w Wiring, opts engine.Options) *uciSim {
-	s := &uciSim{k: k, t: t, res: res, maxSteps: core.Scale(12000, 40000)}
+	s := &uciSim{k: k, t: t, res: res, maxSteps: core.Scale(12000, 40000), iterSent: map[string]bool{}}
 	s.ctx, s.cancel = context.WithCancel(context.Background())
 	s.b = Build(s.ctx, k, w, opts, int64(t.Choose(1<<16)), int64(t.Choose(1<<16)))
 	s.in = make(chan string)
@@ -112,6 +114,9 @@ func (s *uciSim) sync() {
 		s.loopMark = s.k.Work()
 	}
 	for _, tk := range s.k.Parked() {
+		if tk.Role == "search" && tk.Point == IterPoint {
+			s.iterSent[tk.Name] = true // this search has completed an iteration
+		}
 		if tk.Role != "loop" {
 			continue
 		}
@@ -347,6 +352,7 @@ func (s *uciSim) stepRandom(gui func() string, wDeliver, wClock int) {
 // It is the "after the last fault" phase: liveness is judged only here.
 func (s *uciSim) settle(cond func() bool, maxRounds int) bool {
 	s.stall = 0
+	s.afterDeadlineRounds = 0
 	s.sync()
 	for r := 0; r < maxRounds; r++ {
 		if cond() {
@@ -355,6 +361,15 @@ func (s *uciSim) settle(cond func() bool, maxRounds int) bool {
 		if s.k.OverBudget() {
 			s.budgetHit = true
 			return cond()
+		}
+		// time may always pass: a limit that is still ahead is reached first (a running search would otherwise
+		// keep the settle phase busy until the evaluation budget is gone, with no timer ever firing)
+		if d := s.nextDeadline(); d > 0 {
+			time.Sleep(d)
+			s.res.SimNanos += int64(d)
+			s.sync()
+		} else {
+			s.afterDeadlineRounds++
 		}
 		s.steps++
 		progressed := false
@@ -385,6 +400,50 @@ func (s *uciSim) settle(cond func() bool, maxRounds int) bool {
 		}
 	}
 	return cond()
+}
+
+// clockSettle: used when the evaluation budget is gone. Time passes (to the next known timer instant, else
+// an hour), then every task that can run is released with no credit (a search makes one evaluation per
+// release). Enough for a timer to fire, its Halt to get through and the search to notice at its next
+// poll; not enough for real searching.
+func (s *uciSim) clockSettle(cond func() bool, rounds int) bool {
+	s.stall = 0
+	s.sync()
+	for r := 0; r < rounds; r++ {
+		if cond() {
+			return true
+		}
+		d := s.nextDeadline()
+		if d == 0 {
+			d = time.Hour
+		}
+		time.Sleep(d)
+		s.res.SimNanos += int64(d)
+		s.sync()
+		s.steps++
+		for _, tk := range s.k.Parked() {
+			if !s.releasable(tk) {
+				continue
+			}
+			s.release(tk, 0)
+			s.sync()
+			if cond() {
+				return true
+			}
+		}
+	}
+	return cond()
+}
+
+// searchOfThisGoReported: a search task created after ordinal ord has completed an iteration.
+func (s *uciSim) searchReportedSince(ord int) bool {
+	for name := range s.iterSent {
+		var n int
+		if _, err := fmt.Sscanf(name, "search#%d", &n); err == nil && n > ord {
+			return true
+		}
+	}
+	return false
 }
 
 // teardown ends the session: EOF if still open, then everything runs free and the root context is cancelled.
